@@ -26,7 +26,7 @@ ASSUMPTIONS = [
     "with trailing bytes after an RTU frame the served payload must be the prefix of response_data() (the library's "
     "trim keeps the trailing bytes; sensors address the payload by offset)",
 ]
-MUST = ["aa55_sum_ge_8000", "aa55_sum_ge_10000", "rtu_trailing", "end_to_end_success", "negative_write_echo", "overlapping_tcp_inverters", "same_object_sequences", "consecutive_slow_or_identical_answers",
+MUST = ["aa55_sum_ge_8000", "aa55_sum_ge_10000", "rtu_trailing", "end_to_end_success", "negative_write_echo", "overlapping_tcp_inverters", "same_object_sequences", "consecutive_slow_or_identical_answers", "requests_from_a_new_event_loop",
         "accepted_rtu", "accepted_tcp", "accepted_aa55"]
 EXHAUSTIVE = {"quick": False, "thorough": False}
 CLASSES = ["random", "ff", "00", "7f80", "fe", "aa55"]
@@ -234,7 +234,17 @@ def same_object(spec, part):
         framing = rnd.choice(("rtu", "tcp"))
         transport = "tcp" if framing == "tcp" else "udp"
         ka = rnd.random() < 0.6
-        if i % 3 == 2:
+        if i % 7 == 4:
+            # the object is used again from a second event loop (asyncio.run() twice, as scripts do): conforming answers must be accepted there too
+            cA = cB = rnd.choice((1, 2, 10))
+            nseg = rnd.choice((2, 3))
+            sc = {"transport": transport, "framing": framing, "keep_alive": ka, "T": 1, "R": 1,
+                  "by_reg": {2000 + j: ["now"] for j in range(nseg)}, "after": "now",
+                  "segments": [[{"start": 0.0, "steps": [["read", 2000 + j, cA]]}] for j in range(nseg)]}
+            want_tx = {2000 + j: 1 for j in range(nseg)}
+            label = f"{nseg} requests, each from a new event loop (keep_alive={ka})"
+            part.count("requests_from_a_new_event_loop")
+        elif i % 3 == 2:
             # consecutive requests on one object, each answered in time (0 .. 0.9 T after ITS transmission); the answers may be
             # byte-identical (same count, constant payload: an RTU answer does not name the register)
             n, cA, cB = rnd.choice((2, 3, 4, 5)), rnd.choice((1, 2, 4)), 0
